@@ -26,12 +26,14 @@ def main():
     scratch = tempfile.mkdtemp(prefix="trymut_")
     env = dict(os.environ, VERIF_EVIDENCE_DIR=os.path.join(scratch, "ev"), VERIF_REPLAY_DIR=os.path.join(scratch, "rp"))
     fired = []
+    results = {}
     try:
         for p in props:
             r = subprocess.run([os.path.join(ROOT, "check"), p, "quick"], cwd=ROOT, env=env, capture_output=True, text=True)
             sigs = [l.strip().replace("signature: ", "") for l in r.stdout.splitlines() if l.strip().startswith("signature:")]
             inc = [l for l in r.stdout.splitlines() if l.startswith("INCONCLUSIVE")]
             print(f"{p} rc={r.returncode} {sigs[:4]} {inc[:1] if inc else ''}")
+            results[p] = {"exit": r.returncode, "signatures": sigs[:6], "note": (inc[0] if inc else "")}
             if r.returncode == 1:
                 fired.append((p, sigs))
     finally:
@@ -39,6 +41,7 @@ def main():
         subprocess.run(["git", "-C", "/repo", "clean", "-fdq", "--", "h3", "h3-quinn", "h3-datagram", "h3-webtransport"])
         shutil.rmtree(scratch, ignore_errors=True)
     print("FIRED:", json.dumps(fired))
+    print("RESULT_JSON:", json.dumps(results))
     return 0
 
 if __name__ == "__main__":
